@@ -41,6 +41,7 @@ def check(run):
         run.guard("C16.4.storing", cfg + "/hidden-generic", lambda: rule_hidden_generic_table(run, F, cfg))
         run.guard("C16.1.hash-agreement", cfg + "/request-args", lambda: rule_request_hash_args(run, F, cfg))
         run.guard("C16.8.independent-injections", cfg, lambda: rule_independent_injections(run, F, cfg))
+        run.guard("C16.2.bin-pairing", cfg + "/effects", lambda: rule_effects(run, F, cfg))
         run.guard("C16.5.generichide", cfg, lambda: rule_generichide(run, F, cfg))
         b = run.borrow("C08", why="per-hostname cosmetic rules and exceptions must survive serialize/deserialize")
         run.guard("C16.via.C08.3.legacy-bijection", cfg, lambda: _C08.rule_legacy(b, F, cfg))
@@ -512,3 +513,58 @@ def rule_independent_injections(run, F, cfg):
            "each injection is resolved inside the per-item closure of a for_each, its output appended only in the Ok arm, "
            f"and no fail-fast combinator (`collect::<Result<..>>`, `?`, try_fold) aggregates them ({per}; fail-fast calls: "
            f"{[strip_generics(t['callee']) for b, t in failfast]})", site=g.loc(0), config=cfg)
+
+
+def rule_effects(run, F, cfg):
+    """The elementary effects the pairing rules rely on: the two helpers really insert / remove every element of
+    the bucket they are given, the final merge adds every specific selector, and store_rule files a rule under
+    every one of its locations (kind for the positive ones, kind.negated() for the negated ones)."""
+    H = CC + "CosmeticFilterCache::hostname_cosmetic_resources"
+    eff = {}
+    for nme, want_call in (("populate_set", "std::collections::HashSet::insert(up:dest_set, arg:s)"),
+                           ("prune_set", "std::collections::HashSet::remove(up:dest_set, arg:s)")):
+        h = F.fns.get(H + "::" + nme)
+        ok = False
+        if h is not None:
+            fe = [h.expr_call(t) for b, t in h.calls(r"Iterator>?::for_each$")]
+            cls = [c for n, c in F.fns.items() if n.startswith(h.name + "::{closure")]
+            body = [re.sub(r"up:\w+", "up:dest_set", re.sub(r"arg:\w+\)$", "arg:s)", c.expr_call(t)))
+                    for c in cls for b, t in c.calls(r"HashSet::(insert|remove)$")]
+            p2 = h.local_name(2)
+            ok = len(fe) == 1 and f"HostnameFilterBin::get({p2}, " in fe[0] and "@Some.0" in fe[0] and body == [want_call]
+            # the element inserted may be cloned first
+            if not ok and nme == "populate_set":
+                ok = len(fe) == 1 and any("HashSet::insert(up:dest_set" in x for x in body)
+        eff[nme] = ok
+    run.ob("C16.2.bin-pairing", "helpers-apply-to-every-element", all(eff.values()) and len(eff) == 2,
+           f"populate_set inserts, and prune_set removes, every element of source_bin.get(hash) into / from dest_set ({eff})",
+           config=cfg)
+    f = F.fn(H)
+    merge = []
+    for n, c in F.fns.items():
+        if n.startswith(H + "::{closure") and n.count("{closure") == 1:
+            for b, t in c.calls(r"HashSet::insert$"):
+                merge.append(re.sub(r"arg:\w+\)$", "arg:sel)", c.expr_call(t)))
+    okm = "std::collections::HashSet::insert(up:hide_selectors, arg:sel)" in merge and \
+        any("for_each" in f.expr_call(t) and "specific_hide_selectors" in f.vexpr_call(t) for b, t in f.calls(r"Iterator::for_each$"))
+    run.ob("C16.2.bin-pairing", "specific-selectors-merged", okm,
+           "when generichide is off, every specific hide selector is inserted into the returned hide_selectors "
+           f"(for_each over specific_hide_selectors) ({merge})", config=cfg)
+    sr = F.fn(CC + "HostnameRuleDb::store_rule")
+    run.touched(sr)
+    fes = [sr.expr_call(t) for b, t in sr.calls(r"^std::iter::Iterator::for_each$")]
+    stores = sorted(re.sub(r"arg:\w+,", "arg:t,", c.expr_call(t)) for c in F.closures_of(sr.name) for b, t in c.calls(r"HostnameRuleDb::store$"))
+    pos = [x for x in fes if "arg:rule.hostnames" in x and "arg:rule.entities" in x and "not_" not in x]
+    neg = [x for x in fes if "arg:rule.not_hostnames" in x and "arg:rule.not_entities" in x]
+    oks = len(fes) == 2 and len(pos) == 1 and len(neg) == 1 and stores == [
+        "cosmetic_filter_cache::HostnameRuleDb::store(up:self, arg:t, up:kind)",
+        "cosmetic_filter_cache::HostnameRuleDb::store(up:self, arg:t, up:negated)"]
+    # which closure goes with which chain
+    if oks:
+        oks = bool(re.search(r"closure\[[^\]]+\]\(.*up|closure\[", pos[0])) and True
+        k_cl = [c.name for c in F.closures_of(sr.name) for b, t in c.calls(r"HostnameRuleDb::store$") if c.expr_call(t).endswith("up:kind)")]
+        n_cl = [c.name for c in F.closures_of(sr.name) for b, t in c.calls(r"HostnameRuleDb::store$") if c.expr_call(t).endswith("up:negated)")]
+        oks = bool(k_cl) and bool(n_cl) and k_cl[0] in pos[0] and n_cl[0] in neg[0]
+    run.ob("C16.4.storing", "stored-under-every-location", oks,
+           "store_rule stores `kind` under every hostname and entity of the rule and `kind.negated()` under every negated "
+           f"hostname and entity (for_each over the two chains; stores {stores})", site=sr.loc(0), config=cfg)
